@@ -10,6 +10,7 @@
 import Mhd.Proofs.PoolInv
 import Mhd.Proofs.NoSpace
 import Mhd.Proofs.NoSpaceConn
+import Mhd.Proofs.PoolRzInv
 
 namespace Mhd.C08
 open Mhd.Pool
@@ -62,10 +63,152 @@ theorem reset_keeps (s : St) (i copy n : Nat) (h : WF s) (b : Blk) (hb : s.live[
     s'.p.end_ = s'.p.size ∧ s'.p.size = s.p.size ∧ s'.p.pos = roundUp n ∧ s'.live = [⟨0, n, true⟩] :=
   Mhd.Pool.reset_keeps s i copy n h b hb hc hcn hn
 
+/-- "… keeps *exactly* the requested bytes": everything behind them is zeroed (the `memset` of `MHD_pool_reset`) -/
+theorem reset_zeroes_rest (s : St) (i copy n : Nat) (h : WF s) (b : Blk) (hb : s.live[i]? = some b)
+    (hc : copy ≤ b.len) (hcn : copy ≤ n) (hn : n ≤ s.p.size) :
+    let s' := (step s (.reset (some i) copy n)).1
+    readAt s'.p.mem copy (s.p.size - copy) = List.replicate (s.p.size - copy) 0 :=
+  Mhd.Pool.reset_zeroes_rest s i copy n h b hb hc hcn hn
+
+/-- Relocation copies between ranges that do not overlap (the `memcpy` of `MHD_pool_reallocate` is defined): the
+    reallocated block stays where it is, or the old block was empty (nothing is copied), or the new block lies
+    entirely behind the old one. -/
+theorem realloc_move_no_overlap (s : St) (i n : Nat) (h : WF s) (b : Blk)
+    (hb : s.live[i]? = some b) (hf : b.front = true) (off len : Nat)
+    (hr : (step s (.realloc (some i) n)).2 = .block off len) :
+    off = b.off ∨ b.len = 0 ∨ b.off + b.len ≤ off :=
+  Mhd.Pool.realloc_move_no_overlap s i n h b hb hf off len hr
+
+/-- "aligned for any object": the alignment of the blocks (`ALIGN_SIZE`, regenerated) is a multiple of
+    `_Alignof (max_align_t)` of the configured build (regenerated); the arena base itself comes from
+    `malloc` / `mmap` (the white-box harness checks the absolute address of every block it is handed) -/
+theorem alignment_covers_max_align : A % Mhd.Gen.Pool.maxAlign = 0 ∧ 0 < Mhd.Gen.Pool.maxAlign := by decide
+
 /-- Non-vacuity: a concrete reachable state with two live blocks satisfies the
     hypotheses used above. -/
 example : WF (run (St.init 64) [.alloc 10 false, .alloc 16 true, .realloc (some 0) 30]) := by
   apply Mhd.Pool.run_wf <;> simp [Op.Valid, W, A, Mhd.Gen.Pool.alignSize]
+
+
+/-! ### Both build variants of the pool (`Mhd.PoolRz`)
+
+`Mhd.Model.PoolRz` is memorypool.c with the red zone as a parameter: `rz = 0` the ordinary build (it agrees
+with `Mhd.Pool`, `rz_agrees_with_ordinary_model`), `rz = ALIGN_SIZE` the `MHD_ASAN_POISON_ACTIVE` build the
+second daemon build of C01/C08 uses (`ROUND_TO_ALIGN_PLUS_RED_ZONE`, no early return for zero-sized blocks in
+`MHD_pool_deallocate`, the `__asan_region_is_poisoned` decision there, `MHD_pool_get_free` keeping a red zone
+back, the user-poison map).  The seven theorems above hold for every valid variant (`Var.Valid`: red zone 0 or
+`ALIGN_SIZE`) whose wrap test on the rounded size is sound (`Var.Sound`: always in the ordinary build; in the
+red-zone build iff the code tests `asize < size` — regenerated probe `Mhd.Gen.Pool.sizeWrapByCompare`;
+with `(0 == asize) && (0 != size)` the sizes `SIZE_MAX-14 … SIZE_MAX` pass it: `rz_wrap_witness`).
+`WF v` is the invariant of variant `v`: in the red-zone build every block — also a zero-sized one — owns
+`rz` bytes behind it that belong to nobody (`rz_live_red_zone`); the build-independent reading
+(`Mhd.PoolRz.WFW`: blocks in their part of the arena, pairwise disjoint) follows from it (`WF.weak`) but is
+not inductive on its own (`Mhd.PoolRz.wfw_not_inductive`). -/
+
+section RedZone
+open Mhd.PoolRz (Var)
+
+theorem rz_step_wf (v : Var) (hv : v.Valid) (hs : v.Sound) (s : Mhd.PoolRz.St) (o : Op) (h : Mhd.PoolRz.WF v s)
+    (ho : o.Valid) : Mhd.PoolRz.WF v (Mhd.PoolRz.step v s o).1 :=
+  Mhd.PoolRz.step_wf v hv hs s o h ho
+
+theorem rz_run_wf (v : Var) (hv : v.Valid) (hs : v.Sound) (allocSize : Nat) (ha : allocSize % A = 0)
+    (hsz : allocSize < 2 ^ 62) (ops : List Op) (ho : ∀ o ∈ ops, o.Valid) :
+    Mhd.PoolRz.WF v (Mhd.PoolRz.run v (Mhd.PoolRz.St.init allocSize) ops) :=
+  Mhd.PoolRz.run_wf v hv hs allocSize ha hsz ops ho
+
+/-- the invariant of the variant implies the build-independent one -/
+theorem rz_wf_weak (v : Var) (s : Mhd.PoolRz.St) (h : Mhd.PoolRz.WF v s) : Mhd.PoolRz.WFW s := h.weak
+
+/-- no operation poisons / unpoisons outside the arena -/
+theorem rz_step_no_fault (v : Var) (hv : v.Valid) (hs : v.Sound) (s : Mhd.PoolRz.St) (o : Op)
+    (h : Mhd.PoolRz.WF v s) (ho : o.Valid) : (Mhd.PoolRz.step v s o).2 ≠ .fault :=
+  Mhd.PoolRz.step_no_fault v hv hs s o h ho
+
+theorem rz_block_in_bounds_disjoint (v : Var) (hv : v.Valid) (hs : v.Sound) (s : Mhd.PoolRz.St) (o : Op)
+    (h : Mhd.PoolRz.WF v s) (ho : o.Valid) (off len : Nat) (hr : (Mhd.PoolRz.step v s o).2 = .block off len) :
+    off % A = 0 ∧ off + len ≤ s.p.size ∧
+    ∃ b ∈ (Mhd.PoolRz.step v s o).1.live, b.off = off ∧ b.len = len ∧
+      ∀ c ∈ (Mhd.PoolRz.step v s o).1.live, c ≠ b → Disjoint b c :=
+  Mhd.PoolRz.block_in_bounds_disjoint v hv hs s o h ho off len hr
+
+theorem rz_refused_unchanged (v : Var) (hv : v.Valid) (hs : v.Sound) (s : Mhd.PoolRz.St) (o : Op)
+    (h : Mhd.PoolRz.WF v s) (ho : o.Valid)
+    (hr : (Mhd.PoolRz.step v s o).2 = .null ∨ ∃ n, (Mhd.PoolRz.step v s o).2 = .nullNeed n) :
+    (Mhd.PoolRz.step v s o).1 = s :=
+  Mhd.PoolRz.refused_unchanged v hv hs s o h ho hr
+
+theorem rz_others_untouched (v : Var) (hv : v.Valid) (hs : v.Sound) (s : Mhd.PoolRz.St) (o : Op)
+    (h : Mhd.PoolRz.WF v s) (ho : o.Valid) (hnr : ¬ o.isReset) (j : Nat) (b : Blk) (hb : s.live[j]? = some b)
+    (hj : o.target ≠ some j) :
+    readAt (Mhd.PoolRz.step v s o).1.p.mem b.off b.len = readAt s.p.mem b.off b.len :=
+  Mhd.PoolRz.others_untouched v hv hs s o h ho hnr j b hb hj
+
+theorem rz_realloc_preserves (v : Var) (hv : v.Valid) (hs : v.Sound) (s : Mhd.PoolRz.St) (i n : Nat)
+    (h : Mhd.PoolRz.WF v s) (hn : n < W) (b : Blk) (hb : s.live[i]? = some b) (hf : b.front = true) (off len : Nat)
+    (hr : (Mhd.PoolRz.step v s (.realloc (some i) n)).2 = .block off len) :
+    len = n ∧ readAt (Mhd.PoolRz.step v s (.realloc (some i) n)).1.p.mem off (min b.len n)
+              = readAt s.p.mem b.off (min b.len n) :=
+  Mhd.PoolRz.realloc_preserves v hv hs s i n h hn b hb hf off len hr
+
+/-- (the block asked for must fit the arena together with its red zone: `hrz`; the callers ask for
+    `pool_size / 2` or the read-ahead) -/
+theorem rz_reset_keeps (v : Var) (hv : v.Valid) (s : Mhd.PoolRz.St) (i copy n : Nat) (h : Mhd.PoolRz.WF v s) (b : Blk)
+    (hb : s.live[i]? = some b) (hc : copy ≤ b.len) (hcn : copy ≤ n) (hn : n ≤ s.p.size)
+    (hrz : roundUp n + v.rz ≤ s.p.size) :
+    let s' := (Mhd.PoolRz.step v s (.reset (some i) copy n)).1
+    readAt s'.p.mem 0 copy = readAt s.p.mem b.off copy ∧
+    s'.p.end_ = s'.p.size ∧ s'.p.size = s.p.size ∧ s'.p.pos = Mhd.PoolRz.roundRz v n ∧ s'.live = [⟨0, n, true⟩] :=
+  Mhd.PoolRz.reset_keeps v hv s i copy n h b hb hc hcn hn hrz
+
+/-- the red zone of a freshly allocated block is inside its part of the arena -/
+theorem rz_alloc_red_zone (v : Var) (hv : v.Valid) (hs : v.Sound) (s : Mhd.PoolRz.St) (n : Nat) (fe : Bool)
+    (h : Mhd.PoolRz.WF v s) (hn : n < W) (off len : Nat) (hr : (Mhd.PoolRz.step v s (.alloc n fe)).2 = .block off len) :
+    len = n ∧ (fe = false → off + roundUp n + v.rz ≤ (Mhd.PoolRz.step v s (.alloc n fe)).1.p.pos) ∧
+    (fe = true → off + roundUp n + v.rz ≤ s.p.end_) :=
+  Mhd.PoolRz.alloc_red_zone v hv hs s n fe h hn off len hr
+
+/-- red-zone build: every live block together with its red zone lies in its part of the arena and outside every
+    other live block together with that block's red zone -/
+theorem rz_live_red_zone (v : Var) (s : Mhd.PoolRz.St) (h : Mhd.PoolRz.WF v s) (hrz : v.rz ≠ 0) (i j : Nat) (b c : Blk)
+    (hb : s.live[i]? = some b) (hc : s.live[j]? = some c) (hij : i ≠ j) :
+    (b.front = true → b.off + b.len + v.rz ≤ s.p.pos) ∧
+    (b.front = false → s.p.end_ ≤ b.off ∧ b.off + b.len + v.rz ≤ s.p.size) ∧
+    (b.off + b.len + v.rz ≤ c.off ∨ c.off + c.len + v.rz ≤ b.off) :=
+  Mhd.PoolRz.live_red_zone v s h hrz i j b c hb hc hij
+
+/-- at red zone 0 the parameterised model is the model of the ordinary build: same successor state, same result -/
+theorem rz_agrees_with_ordinary_model (chk : Bool) (s : Mhd.PoolRz.St) (o : Op) (ho : o.Valid)
+    (h : Mhd.PoolRz.WF ⟨0, chk⟩ s) :
+    Mhd.PoolRz.eraseSt (Mhd.PoolRz.step ⟨0, chk⟩ s o).1 = (step (Mhd.PoolRz.eraseSt s) o).1 ∧
+    Mhd.PoolRz.eraseRes (Mhd.PoolRz.step ⟨0, chk⟩ s o).2 = (step (Mhd.PoolRz.eraseSt s) o).2 ∧
+    (Mhd.PoolRz.step ⟨0, chk⟩ s o).2 ≠ .fault :=
+  Mhd.PoolRz.erase_step_wf chk s o ho h
+
+/-- the variants that exist are valid, the ordinary build is sound whatever the wrap test, the red-zone build of
+    the code as it is (`Mhd.Gen.Pool.redZoneAsan`, `sizeWrapByCompare` regenerated) is sound iff the probe says so -/
+theorem rz_code_variants :
+    (∀ chk, Var.Valid ⟨0, chk⟩ ∧ Var.Sound ⟨0, chk⟩) ∧
+    Var.Valid ⟨Mhd.Gen.Pool.redZoneAsan, Mhd.Gen.Pool.sizeWrapByCompare⟩ ∧
+    (Mhd.Gen.Pool.sizeWrapByCompare = true → Var.Sound ⟨Mhd.Gen.Pool.redZoneAsan, Mhd.Gen.Pool.sizeWrapByCompare⟩) :=
+  ⟨fun _ => ⟨Or.inl rfl, Or.inr rfl⟩, Or.inr rfl, fun h => Or.inl h⟩
+
+/-- **Witness** (kernel-checked) that the soundness hypothesis is needed: the red-zone build with the test
+    `(0 == asize) && (0 != size)` hands out a "block" of `SIZE_MAX` bytes at offset 0 of a 64-byte arena (16 bytes
+    reserved) and unpoisons outside the arena — on the real code ASan's own CHECK aborts the process
+    (`MHD_pool_allocate (pool, SIZE_MAX, false)`, memorypool.c:424). -/
+theorem rz_wrap_witness :
+    (Mhd.PoolRz.step ⟨16, false⟩ (Mhd.PoolRz.St.init 64) (.alloc (2 ^ 64 - 1) false)).2 = .fault ∧
+    (Mhd.PoolRz.allocate ⟨16, false⟩ (Mhd.PoolRz.create 64) (2 ^ 64 - 1) false).2 = some 0 ∧
+    (Mhd.PoolRz.allocate ⟨16, false⟩ (Mhd.PoolRz.create 64) (2 ^ 64 - 1) false).1.pos = 16 :=
+  Mhd.PoolRz.wrap_witness
+
+/-- Non-vacuity: a reachable state of the red-zone build with a front, a zero-sized and a back block -/
+example : Mhd.PoolRz.WF ⟨16, true⟩ (Mhd.PoolRz.run ⟨16, true⟩ (Mhd.PoolRz.St.init 128)
+    [.alloc 10 false, .alloc 0 false, .alloc 5 true, .realloc (some 0) 30]) := by
+  apply Mhd.PoolRz.run_wf <;> simp [Op.Valid, W, A, Mhd.Gen.Pool.alignSize, Mhd.PoolRz.Var.Valid, Mhd.PoolRz.Var.Sound]
+
+end RedZone
 
 /-! ### "a request that does not fit is refused with 413/414/431 or a close"
 
@@ -126,8 +269,9 @@ open Mhd.ArenaBound Mhd.ConnRead Mhd.ConnMem in
     (2) no parser access outside the received bytes, no operation the buffer layer refuses;
     (3) every block the request processing works in — the read buffer (with the request line, the
         field lines, the body window), the write buffer, and (by `CMInv`) the cursors between which the
-        back-allocated request elements lie — is inside the one arena: `… ≤ pos ≤ end_ ≤ size`; there is no
-        other memory in the model's state, every allocation is an operation on `cm.p`;
+        back-allocated request elements lie — is inside the one arena of the configured size: `… ≤ pos ≤ end_ ≤ size`
+        and `size = allocSize` throughout (the arena is never replaced or enlarged: there is no other memory in the
+        model's state, every allocation is an operation on `cm.p`);
     (4) the connection never waits for data with a full read buffer: what does not fit is not stored;
     (5) when the request does not fit (`.error .noSpace`: the buffer is full and cannot grow, or a parsed
         field line finds no room for its element) the refusal has been decided and is a close or one of
@@ -137,7 +281,7 @@ theorem arena_hard_bound (cfg : Cfg) (allocSize poolSize inc : Nat) (lvl : Int) 
     let t := runT cfg (initT allocSize poolSize inc lvl) chunks
     t.x = Mhd.ConnRead.run cfg (Mhd.ConnRead.init allocSize poolSize inc lvl) chunks ∧
     ((∀ f, t.x.phase ≠ .fault f) ∧ (∀ n, t.x.phase ≠ .refused n)) ∧
-    (CMInv t.x.cm ∧ WindowsInside t.x.cm) ∧
+    (t.x.cm.p.size = allocSize ∧ CMInv t.x.cm ∧ WindowsInside t.x.cm) ∧
     (t.x.wantsRead = true → t.x.cm.rbOff < t.x.cm.rbSize) ∧
     (t.x.phase = .error .noSpace → ∃ r, t.log = some r ∧ r.Allowed) := by
   intro t
@@ -151,7 +295,8 @@ theorem arena_hard_bound (cfg : Cfg) (allocSize poolSize inc : Nat) (lvl : Int) 
       rw [f.2.1, f.2.2.2.2.1]; omega)
   refine ⟨hx, ?_, ?_, ?_, ?_⟩
   · rw [hx]; exact safe_not_faulty hsafe
-  · rw [hx]; exact ⟨safe_cminv hsafe, Mhd.ConnMem.windows_of_inv _ (safe_cminv hsafe)⟩
+  · rw [hx]; exact ⟨(run_size cfg chunks _).trans (init_size allocSize poolSize inc lvl), safe_cminv hsafe,
+      Mhd.ConnMem.windows_of_inv _ (safe_cminv hsafe)⟩
   · rw [hx]; exact hlive
   · intro hph
     have hg := runT_good cfg chunks _ (initT_good allocSize poolSize inc lvl)
